@@ -74,7 +74,7 @@ def fndaRecs (fs : List (Name × Fn)) : List Rec :=
 def brdaRecs (bs : List (Nat × List Bool)) : List Rec :=
   (brdaRecords bs).map fun r =>
     .brda (decDigits r.1) (decDigits 0) (decDigits r.2.1) (if r.2.2 then [49] else [45])
-def daRecs (ls : List (Nat × Nat)) : List Rec := ls.map fun lc => .da (decDigits lc.1) (decDigits lc.2)
+def daRecs (ls : List (Nat × Nat)) : List Rec := ls.map fun lc => .da (decDigits lc.1) (decDigits lc.2) none
 /-- `FNF:n`, `FNH:n`, `BRF:n`, `BRH:n` -/
 def keyedSummary (key : Bytes) (n : Nat) : Rec := .otherKeyed key 58 (dec (n + 1) n)
 /-- `LF:n`, `LH:n` -/
@@ -110,60 +110,53 @@ def printLcov (rs : List (Bytes × Cov)) : Bytes :=
 
 /-! ### applying those records -/
 
-theorem applyRecs_append (branch : Bool) (a : Acc) (xs ys : List Rec) :
-    applyRecs branch a (xs ++ ys) = (applyRecs branch a xs).bind fun a' => applyRecs branch a' ys := by
-  induction xs generalizing a with
-  | nil => simp [applyRecs]
-  | cons r xs ih =>
-    simp only [List.cons_append, applyRecs]
-    cases applyRec branch a r with
-    | none => rfl
-    | some a1 => simp [ih]
-
 def setCur (a : Acc) (c : Cov) : Acc := { a with cur := c }
 
 theorem applyRecs_da (branch : Bool) (a : Acc) (ls : List (Nat × Nat)) :
-    applyRecs branch a (daRecs ls) = some (daFold a ls) := by
+    applyRecs branch a (daRecs ls) = daFold a ls := by
   induction ls generalizing a with
   | nil => rfl
   | cons lc ls ih =>
-    simp only [daRecs, List.map_cons, applyRecs, applyRec, decDigits_val, Option.bind_some]
+    simp only [daRecs, List.map_cons, applyRecs_cons, applyRec, decDigits_val]
     exact ih _
 
 theorem applyRecs_brda (a : Acc) (bs : List (Nat × List Bool)) :
     applyRecs true a (brdaRecs bs)
-      = some { a with cur := { a.cur with branches := brdaFold a.cur.branches (brdaRecords bs) } } := by
+      = { a with cur := { a.cur with branches := brdaFold a.cur.branches (brdaRecords bs) } } := by
   unfold brdaRecs
   generalize brdaRecords bs = rs
   induction rs generalizing a with
   | nil => rfl
   | cons r rs ih =>
-    simp only [List.map_cons, applyRecs, applyRec, decDigits_val, if_true, Option.bind_some]
+    simp only [List.map_cons, applyRecs_cons, applyRec, decDigits_val, if_true]
     rw [ih]
     have ht : takenOf (if r.2.2 = true then [49] else [45]) = r.2.2 := by
       cases r.2.2 <;> simp [takenOf]
     simp [commitBranch, brdaFold, ht]
 
 theorem applyRecs_inert_list (branch : Bool) (a : Acc) (rs : List Rec) (h : ∀ r ∈ rs, r.isInert = true) :
-    applyRecs branch a rs = some a := applyRecs_inert branch a rs h
+    applyRecs branch a rs = a := applyRecs_inert branch a rs h
 
 /-- FN records: every function is declared with its start line and `executed = false` -/
 def declFold (m : List (Name × Fn)) (fs : List (Name × Fn)) : List (Name × Fn) :=
   fs.foldl (fun m nf => set m nf.1 ⟨nf.2.start, false⟩) m
 
 theorem applyRecs_fn (branch : Bool) (a : Acc) (fs : List (Name × Fn))
-    (hu : ∀ nf ∈ fs, utf8Lossy nf.1 = nf.1) :
+    (hu : ∀ nf ∈ fs, utf8Lossy nf.1 = nf.1) (hp : a.pending = []) :
     applyRecs branch a (fnRecs fs)
-      = some { a with cur := { a.cur with functions := declFold a.cur.functions fs } } := by
+      = { a with cur := { a.cur with functions := declFold a.cur.functions fs } } := by
   induction fs generalizing a with
   | nil => rfl
   | cons nf fs ih =>
     have h1 := hu nf (by simp)
-    simp only [fnRecs, List.map_cons, applyRecs, applyRec, decDigits_val, Option.bind_some]
-    have := ih (commitFn a nf.2.start nf.1) fun x hx => hu x (List.mem_cons_of_mem _ hx)
+    simp only [fnRecs, List.map_cons, applyRecs_cons, applyRec, decDigits_val]
+    have := ih (commitFn a nf.2.start nf.1) (fun x hx => hu x (List.mem_cons_of_mem _ hx))
+      (by simp [commitFn, hp, erase])
     simp only [fnRecs] at this
     rw [this]
-    simp [commitFn, declFold, h1]
+    obtain ⟨R, cf, c, P⟩ := a
+    simp only at hp; subst hp
+    simp [commitFn, declFold, h1, erase]
 
 theorem get?_declFold (m fs : List (Name × Fn)) (hn : NodupKeys fs) (n : Name) :
     get? (declFold m fs) n = match get? fs n with
@@ -193,7 +186,7 @@ theorem applyRecs_fnda (branch : Bool) (a : Acc) (fs : List (Name × Fn))
     (hu : ∀ nf ∈ fs, utf8Lossy nf.1 = nf.1)
     (hdecl : ∀ nf ∈ fs, (get? a.cur.functions nf.1).isSome) :
     applyRecs branch a (fndaRecs fs)
-      = some { a with cur := { a.cur with functions := execFold a.cur.functions fs } } := by
+      = { a with cur := { a.cur with functions := execFold a.cur.functions fs } } := by
   induction fs generalizing a with
   | nil => rfl
   | cons nf fs ih =>
@@ -207,9 +200,9 @@ theorem applyRecs_fnda (branch : Bool) (a : Acc) (fs : List (Name × Fn))
       let fs' : List (Name × Fn) :=
         AList.set a.cur.functions nf.1 ({ g with executed := g.executed || nf.2.executed } : Fn)
       let a1 : Acc := { a with cur := { a.cur with functions := fs' } }
-      have hc : commitFnda a (decDigits (if nf.2.executed = true then 1 else 0)).val nf.1 = some a1 := by
+      have hc : commitFnda a (decDigits (if nf.2.executed = true then 1 else 0)).val nf.1 = a1 := by
         simp [commitFnda, h1, hg, decDigits_val, hflag, a1, fs']
-      simp only [fndaRecs, List.map_cons, applyRecs, applyRec, hc, Option.bind_some]
+      simp only [fndaRecs, List.map_cons, applyRecs_cons, applyRec, hc]
       have := ih a1
         (fun x hx => hu x (List.mem_cons_of_mem _ hx))
         (by
@@ -300,14 +293,12 @@ structure WriterOK (path : Bytes) (c : Cov) : Prop where
 
 theorem applyRecs_writer (R : List (Bytes × Cov)) (cf : Option Bytes) (c : Cov)
     (hu : ∀ nf ∈ c.functions, utf8Lossy nf.1 = nf.1) (hn : NodupKeys c.functions) :
-    applyRecs true { results := R, curFile := cf, cur := {} } (writerRecs c)
-      = some { results := R, curFile := cf, cur := rtCov c } := by
-  have inertK : ∀ key n, (keyedSummary key n).isInert = true := fun _ _ => rfl
-  have inertL : ∀ c n, (lineSummary c n).isInert = true := fun _ _ => rfl
+    applyRecs true { results := R, curFile := cf, cur := {}, pending := [] } (writerRecs c)
+      = { results := R, curFile := cf, cur := rtCov c, pending := [] } := by
   have hsum : ∀ (a : Acc), applyRecs true a
       (if c.functions.isEmpty then [] else
         [keyedSummary [70, 78, 70] c.functions.length,
-         keyedSummary [70, 78, 72] (c.functions.filter fun nf => nf.2.executed).length]) = some a := by
+         keyedSummary [70, 78, 72] (c.functions.filter fun nf => nf.2.executed).length]) = a := by
     intro a
     apply applyRecs_inert
     intro r hr
@@ -321,19 +312,15 @@ theorem applyRecs_writer (R : List (Bytes × Cov)) (cf : Option Bytes) (c : Cov)
     have : get? c.functions nf.1 = some nf.2 := get?_of_mem hn (by cases nf; exact hnf)
     simp [this]
   simp only [writerRecs, applyRecs_append]
-  rw [applyRecs_fn true _ c.functions hu]
-  simp only [Option.bind_some]
+  rw [applyRecs_fn true _ c.functions hu rfl]
   rw [applyRecs_fnda true _ c.functions hu (by simpa using hdecl)]
-  simp only [Option.bind_some, hsum]
+  simp only [hsum]
   rw [applyRecs_brda]
-  simp only [Option.bind_some]
   rw [applyRecs_inert true _ _ (by
     intro r hr
     simp only [List.mem_cons, List.mem_singleton, List.not_mem_nil, or_false] at hr
     rcases hr with hr | hr <;> subst hr <;> rfl)]
-  simp only [Option.bind_some]
   rw [applyRecs_da, daFold_eq]
-  simp only [Option.bind_some]
   rw [applyRecs_inert true _ _ (by
     intro r hr
     simp only [List.mem_cons, List.mem_singleton, List.not_mem_nil, or_false] at hr
@@ -432,7 +419,8 @@ theorem writerSection_wf (first : Bool) (path : Bytes) (c : Cov) (h : WriterOK p
     · -- DA
       simp only [daRecs, List.mem_map] at hr
       obtain ⟨lc, hlc, rfl⟩ := hr
-      exact ⟨decDigits_wf _ _ (h.lineNos lc hlc), decDigits_wf _ _ (h.wf.countsFit lc hlc)⟩
+      exact ⟨decDigits_wf _ _ (h.lineNos lc hlc), decDigits_wf _ _ (h.wf.countsFit lc hlc),
+        fun x hx => by simp [checksumBytes] at hx⟩
     · -- LF / LH
       simp only [List.mem_cons, List.mem_singleton, List.not_mem_nil, or_false] at hr
       rcases hr with hr | hr <;> subst hr
@@ -441,8 +429,9 @@ theorem writerSection_wf (first : Bool) (path : Bytes) (c : Cov) (h : WriterOK p
 
 theorem semSection_writer (first : Bool) (path : Bytes) (c : Cov) (h : WriterOK path c) :
     semSection true (writerSection first path c) = some (utf8Lossy path, rtCov c) := by
-  simp only [semSection, writerSection]
-  rw [applyRecs_writer [] _ c (fun nf hnf => (h.fnNames nf hnf).2.1) h.wf.functionsNodup]
+  have e := applyRecs_writer [] (some (utf8Lossy path)) c (fun nf hnf => (h.fnNames nf hnf).2.1)
+    h.wf.functionsNodup
+  simp only [semSection, writerSection, e]
   rfl
 
 theorem semAll_writer (first : Bool) (rs : List (Bytes × Cov)) (h : ∀ pc ∈ rs, WriterOK pc.1 pc.2) :
